@@ -7,6 +7,7 @@ AUDIT = "Eliot/Audit/C04.lean"
 THEOREMS = ["Sys.C04.execS_good", "Sys.C04.execB_good", "Sys.C04.exec_restores_ctx", "Sys.C04.program_ends_contextless",
             "Sys.C04.inside_is_current", "Sys.C04.probe_in_body_sees_action", "Sys.C04.start_task_fresh",
             "Sys.C04.contextless_msg_own_task"]
+GENERATED_OBLIGATIONS = ["Sys.C04.skeleton_E6"]
 RULE = ("random programs over the full statement language of the core model (with-blocks, explicit handles with `with x:` / "
         "`x.context()` / `x.run()`, re-entry while inside, tasks, remote continuation, try/except, raises of generated exception "
         "classes incl. BaseException/GeneratorExit/KeyboardInterrupt/CancelledError subclasses, failing destinations/serializers/"
@@ -39,7 +40,7 @@ def oracle(ctx, case, real, rt):
 
 def run(ctx):
     syscorr.run_programs(ctx, ctx.budget(400, 12000), PROFILE, oracle, nontrivial=nontrivial,
-                          compare=["outcome", "probes", "ctx"])
+                          compare=["outcome", "probeTypes", "ctxType"])
 
 
 def replay(ctx, obj):
